@@ -30,6 +30,8 @@ def jobs(tier, seed):
             add("product", a3, [s], nshard=8, name="product3=12cells")
         add("product", a2, drv.all_shapes(14, 10), nshard=8, name="product2<=14cells")
         add("product", a4, drv.all_shapes(6), name="product4<=6cells")
+        # four levels on 12 cells (a saddle bin between two basins with a lower bin hanging off it needs >= 3x4 and 4 levels)
+        add("product", a4, [(3, 4), (4, 3), (2, 6), (6, 2)], ihmax=[100], nshard=16, name="product4=12cells", shifts=False)
         big = [(4, 6), (5, 8), (8, 8), (6, 3), (3, 7)]
         add("impulse2", a3, big, ihmax=[2, 3, 5, 100], nshard=2)
         add("bump3", a4, [(4, 6), (3, 5)], ihmax=[2, 3, 5, 100], nshard=4)
@@ -41,6 +43,7 @@ def jobs(tier, seed):
             add("product", a3, [s], nshard=32, name="product3=13-14cells")
         add("product", a2, drv.all_shapes(18, 10), nshard=32, name="product2<=18cells")
         add("product", a4, drv.all_shapes(10), nshard=32, name="product4<=10cells")
+        add("product", a4, drv.all_shapes(12, 12), ihmax=[3, 5, 100], nshard=64, name="product4=12cells")
         big = [(4, 6), (5, 8), (8, 8), (6, 3), (3, 7), (7, 5), (2, 16), (16, 2)]
         add("impulse2", a3, big, ihmax=[2, 3, 5, 10, 100], nshard=8)
         add("bump3", a4, [(4, 6), (3, 5), (5, 8), (6, 6)], ihmax=[2, 3, 5, 100], nshard=16)
